@@ -141,6 +141,7 @@ pub fn drive(name: &str, out: &str, args: &[String]) {
         "staked" => staked_driver(out, seed, arg(args, 1, 50)),
         "kamino" => kamino_driver(out, seed, arg(args, 1, 30)),
         "drift" => drift_driver(out, seed, arg(args, 1, 30)),
+        "solend" => solend_driver(out, seed, arg(args, 1, 30)),
         _ => {
             eprintln!("unknown driver {}", name);
             std::process::exit(2);
@@ -2046,7 +2047,9 @@ fn kamino_driver(out: &str, seed: u64, n: u64) {
         // withdrawals: by amount up to the health limit, then everything
         let mkw = |x: u64| with_refresh(json!({"op":"kamino_withdraw","acct":"A1","bank":"KB1","amount":x}));
         if debt > 0 {
-            if let Some((wlo, whi)) = search_boundary(&mut r, &mkw, deps[0].saturating_mul(3), "RiskEngineInitRejected") {
+            // (the health limit lies below the balance limit: search below the latter)
+            let top = search_boundary(&mut r, &mkw, deps[0].saturating_mul(3), "OperationWithdrawOnly").map(|(lo, _)| lo).unwrap_or(deps[0]);
+            if let Some((wlo, whi)) = search_boundary(&mut r, &mkw, top.max(2), "RiskEngineInitRejected") {
                 r.act(mkw(whi));
                 if wlo > 0 && r.act(mkw(wlo))["res"] == "ok" {
                     nw += 1;
@@ -2071,6 +2074,199 @@ fn kamino_driver(out: &str, seed: u64, n: u64) {
         }
     }
     eprintln!("kamino driver: {} scenarios, {} borrow boundaries, {} withdraw boundaries, {} events", n, nb, nw, r.events);
+    r.finish();
+}
+
+// ------------------------------------------------------------------------------------------------
+// solend driver: the Solend integration instructions on the stand-in venue (same episodes as the Kamino driver:
+// creation-time checks, deposits, bisected borrow limits, substituted venue accounts and price slots, stale
+// reserves, venue interest and fees in 10^18-scaled units, withdrawals to the health limit, the shared cap of
+// eight integration positions, a receivership attempt - the Solend program is not on the receivership allow-list).
+// ------------------------------------------------------------------------------------------------
+fn solend_driver(out: &str, seed: u64, n: u64) {
+    let mut rng = StdRng::seed_from_u64(seed);
+    let mut setup = base_setup();
+    setup.extend(vec![
+        json!({"op":"init_account","acct":"A3","group":"G1","authority":"U3"}),
+        json!({"op":"add_mint","mint":"MD","decimals":6,"kind":"spl"}),
+        json!({"op":"add_bank","group":"G1","bank":"BD","mint":"MD","cfg":{"lw_init":"1.25","lw_maint":"1.125"}}),
+        json!({"op":"set_fixed_price","bank":"BD","price":1}),
+        json!({"op":"fund","user":"U9","mint":"MD","amount":"4000000000000000"}),
+        json!({"op":"deposit","acct":"LP","bank":"BD","amount":"3000000000000000"}),
+        json!({"op":"fund","user":"liquidator","mint":"MD","amount":"4000000000000000"}),
+    ]);
+    let mut r = Recorder::new(&format!("{}/solend.trace", out), setup);
+    let (mut nb, mut nw) = (0u64, 0u64);
+    for k in 0..n {
+        let nres = if k % 3 == 0 { 9 } else { 2 };
+        let mut extra = vec![];
+        let mut deps: Vec<u64> = vec![];
+        for i in 1..=nres {
+            let dec: u64 = *pick(&mut rng, &[6u64, 6, 9, 8]);
+            let kind = "spl";   // (Solend moves tokens with the plain SPL transfer)
+            let avail: u64 = *pick(&mut rng, &[1_000_000u64, 5_000_000_000, 800_000_000_000_000]);
+            let borrowed: u64 = avail / *pick(&mut rng, &[1u64, 3, 100, 1_000_000]);
+            let rate = *pick(&mut rng, &[1.0f64, 1.0, 1.11, 2.5, 0.73, 1.000001]);
+            let supply: u64 = (((avail as f64) + (borrowed as f64)) / rate) as u64;
+            let price: i64 = *pick(&mut rng, &[1_000_000i64, 150_000_000, 3_456, 99_999_999]);
+            extra.push(json!({"op":"add_mint","mint":format!("MS{}", i),"decimals":dec,"kind":kind}));
+            extra.push(json!({"op":"set_oracle","oracle":format!("OS{}", i),"kind":"pyth","price":price,"conf":(price as f64 * *pick(&mut rng, &[0.0f64, 0.001, 0.02])) as i64,"expo":-6}));
+            extra.push(json!({"op":"add_solend_reserve","reserve":format!("SR{}", i),"mint":format!("MS{}", i),"market":"SM1","avail":avail.to_string(),"supply":supply.max(1).to_string(),"borrowed_wads":((borrowed as u128) * 1_000_000_000_000_000_000u128 + *pick(&mut rng, &[0u128, 1, 999_999_999_999_999_999])).to_string()}));
+            let (awi, awm) = *pick(&mut rng, &[("0.8", "0.9"), ("0.5", "0.65"), ("0.95", "0.97"), ("1", "1")]);
+            extra.push(json!({"op":"add_bank_solend","group":"G1","bank":format!("SB{}", i),"reserve":format!("SR{}", i),"oracle":format!("OS{}", i),"setup":11,"seed":0,
+                              "cfg":{"aw_init":awi,"aw_maint":awm,"oracle_max_age":60}}));
+            extra.push(json!({"op":"fund","user":"payer","mint":format!("MS{}", i),"amount":"1000000"}));
+            extra.push(json!({"op":"solend_init_obligation","bank":format!("SB{}", i),"amount":*pick(&mut rng, &[10u64, 100, 999])}));
+            for u in ["U1", "U3"] {
+                extra.push(json!({"op":"fund","user":u,"mint":format!("MS{}", i),"amount":"4000000000000000"}));
+            }
+            deps.push((*pick(&mut rng, &[1_000u64, 1_000_000, 123_456_789, 50_000_000_000])).min(avail));
+        }
+        r.begin(&extra);
+        // creation-time checks: a second obligation init, too small a first deposit, a foreign reserve for the bank
+        r.act(json!({"op":"solend_init_obligation","bank":"SB1","amount":100}));
+        r.act(json!({"op":"add_bank_solend","group":"G1","bank":"SBX","reserve":"SR1","oracle":"OS1","setup":3,"seed":5}));
+        r.act(json!({"op":"add_bank_solend","group":"G1","bank":"SBX","reserve":"SR1","mint":"MD","oracle":"OS1","setup":11,"seed":5}));
+        r.act(json!({"op":"add_bank_solend","group":"G1","bank":"SBX","reserve":"SR1","oracle":"OS1","setup":11,"seed":5,"signer":"stranger"}));
+        // incoherent configurations, also for a bank that starts out paused
+        for st in [1u64, 0, 2] {
+            let bad = pick(&mut rng, &[json!({"aw_init":"0.9","aw_maint":"0.5"}), json!({"aw_init":"1.5","aw_maint":"1.6"}), json!({"risk_tier":1,"aw_init":"0.5","aw_maint":"0.6"}),
+                                        json!({"oracle_max_age":5}), json!({"aw_init":"0.5","aw_maint":"2.5"})]).clone();
+            let mut cfg = bad;
+            cfg["op_state"] = json!(st);
+            r.act(json!({"op":"add_bank_solend","group":"G1","bank":"SBY","reserve":"SR1","oracle":"OS1","setup":11,"seed":6 + st,"cfg":cfg}));
+        }
+        // deposits through the venue; the ordinary deposit / withdraw / borrow instructions refuse venue banks
+        r.act(json!({"op":"deposit","acct":"A1","bank":"SB1","amount":5}));
+        r.act(json!({"op":"solend_deposit","acct":"A1","bank":"SB1","amount":0}));
+        r.act(json!({"op":"solend_deposit","acct":"A1","bank":"SB1","amount":deps[0]}));
+        r.act(json!({"op":"solend_deposit","acct":"A1","bank":"SB1","amount":deps[0] / 3 + 1,"signer":"stranger"}));
+        r.act(json!({"op":"borrow","acct":"A3","bank":"SB1","amount":1}));
+        r.act(json!({"op":"withdraw","acct":"A1","bank":"SB1","amount":1}));
+        for sub in [json!({"reserve_acct":"SR2"}), json!({"obligation":"SB2.obl"}), json!({"supply_vault":"SR2.supply"})] {
+            let mut a = json!({"op":"solend_deposit","acct":"A1","bank":"SB1","amount":10});
+            for (kk, v) in sub.as_object().unwrap() {
+                a[kk] = v.clone();
+            }
+            r.act(a);
+        }
+        if nres == 9 {
+            // the cap of eight integration positions, with and without an ordinary position next to them
+            if rng.gen_bool(0.5) {
+                r.act(json!({"op":"fund","user":"U1","mint":"MD","amount":"1000000"}));
+                r.act(json!({"op":"deposit","acct":"A1","bank":"BD","amount":1000}));
+            }
+            for i in 2..=9 {
+                r.act(json!({"op":"solend_deposit","acct":"A1","bank":format!("SB{}", i),"amount":deps[i - 1]}));
+            }
+            r.act(json!({"op":"solend_withdraw","acct":"A1","bank":"SB3","amount":0,"all":true}));
+            r.act(json!({"op":"solend_deposit","acct":"A1","bank":"SB9","amount":deps[8]}));
+            r.act(json!({"op":"pulse_health","acct":"A1"}));
+        }
+        // borrow limit against venue collateral
+        let mkb = |x: u64| json!({"op":"borrow","acct":"A1","bank":"BD","amount":x});
+        let mut debt = 0u64;
+        if let Some((lo, hi)) = search_boundary(&mut r, &mkb, 2_000_000_000_000_000, "RiskEngineInitRejected") {
+            r.act(mkb(hi));
+            let keep = rng.gen_bool(0.6);
+            if lo > 0 {
+                let small = (lo / 2).max(1);
+                r.fork(&mut |r: &mut Recorder| {
+                    let mut a = mkb(small);
+                    a["oracle_sub_slots"] = json!({"SB1": {"1": "SR2"}});
+                    r.act(a);
+                });
+                r.fork(&mut |r: &mut Recorder| {
+                    let mut a = mkb(small);
+                    a["oracle_sub_slots"] = json!({"SB1": {"0": "OS2"}});
+                    r.act(a);
+                });
+                // the reserve refreshed in this slot, one slot ago, two slots ago (recorded side branches)
+                let now_slot = r.ex.env.world.clock.slot;
+                for back in [0u64, 1, 2] {
+                    r.fork(&mut |r: &mut Recorder| {
+                        r.act(json!({"op":"set_solend_reserve","reserve":"SR1","slot":now_slot.saturating_sub(back)}));
+                        r.act(mkb(small));
+                    });
+                }
+                // the time-weighted price carries its own confidence: far wider than the spot one, and beyond the bank's maximum
+                for ec in [0.03f64, 0.2] {
+                    r.fork(&mut |r: &mut Recorder| {
+                        let o = r.ex.env.oracles.get("OS1").cloned();
+                        if let Some(o) = o {
+                            r.act(json!({"op":"set_oracle","oracle":"OS1","price":o.price,"conf":o.conf,"ema":o.price,"ema_conf":((o.price as f64) * ec) as i64}));
+                            r.act(mkb(small));
+                            r.act(mkb(lo));
+                        }
+                    });
+                }
+                if r.act(mkb(lo))["res"] == "ok" {
+                    debt = lo;
+                    nb += 1;
+                }
+            }
+        }
+        // the venue moves on: a slot later the reserve is stale until somebody refreshes it
+        r.act(json!({"op":"tick","dt": *pick(&mut rng, &[1i64, 10, 3600])}));
+        r.act(mkb(1));
+        r.act(json!({"op":"solend_deposit","acct":"A1","bank":"SB1","amount":10}));
+        r.act(json!({"op":"tx","ixs":[{"op":"solend_refresh","reserve":"SR1"},{"op":"solend_deposit","acct":"A1","bank":"SB1","amount":10}]}));
+        let mut refresh_all = vec![];
+        for i in 1..=nres {
+            refresh_all.push(json!({"op":"solend_refresh","reserve":format!("SR{}", i)}));
+        }
+        let with_refresh = |a: Value| {
+            let mut ixs = refresh_all.clone();
+            ixs.push(a);
+            json!({"op":"tx","ixs":ixs})
+        };
+        r.act(with_refresh(mkb(1)));
+        r.act(json!({"op":"pulse_health","acct":"A1"}));
+        // venue interest / fees: the exchange rate moves
+        match rng.gen_range(0..4) {
+            0 => {
+                r.act(json!({"op":"set_solend_reserve","reserve":"SR1","borrowed_wads":"900000000000000000000000000000000","refresh":true}));
+            }
+            1 => {
+                r.act(json!({"op":"set_solend_reserve","reserve":"SR1","borrowed_wads":0,"refresh":true}));
+            }
+            2 => {
+                r.act(json!({"op":"set_solend_reserve","reserve":"SR1","fees_wads":"1000500000000000000000","refresh":true}));
+            }
+            _ => {}
+        }
+        r.act(with_refresh(json!({"op":"pulse_health","acct":"A1"})));
+        r.act(with_refresh(mkb(1)));
+        // withdrawals: by amount up to the health limit, then everything
+        let mkw = |x: u64| with_refresh(json!({"op":"solend_withdraw","acct":"A1","bank":"SB1","amount":x}));
+        if debt > 0 {
+            // (the health limit lies below the balance limit: search below the latter)
+            let top = search_boundary(&mut r, &mkw, deps[0].saturating_mul(3), "OperationWithdrawOnly").map(|(lo, _)| lo).unwrap_or(deps[0]);
+            if let Some((wlo, whi)) = search_boundary(&mut r, &mkw, top.max(2), "RiskEngineInitRejected") {
+                r.act(mkw(whi));
+                if wlo > 0 && r.act(mkw(wlo))["res"] == "ok" {
+                    nw += 1;
+                }
+            } else {
+                r.act(mkw(1));
+            }
+            // receivership with a venue withdrawal (the price must be positive and the reserve fresh)
+            r.act(json!({"op":"init_liq_record","acct":"A1"}));
+            r.act(json!({"op":"set_oracle","oracle":"OS1","price":1,"conf":0}));
+            let mut ixs = refresh_all.clone();
+            ixs.retain(|_| false);
+            ixs.push(json!({"op":"start_liq","acct":"A1","receiver":"liquidator"}));
+            ixs.push(json!({"op":"repay","acct":"A1","bank":"BD","amount":(debt / 10).max(1),"signer":"liquidator"}));
+            ixs.push(json!({"op":"solend_withdraw","acct":"A1","bank":"SB1","amount":1,"signer":"liquidator"}));
+            ixs.push(json!({"op":"end_liq","acct":"A1","receiver":"liquidator"}));
+            r.act(json!({"op":"tx","ixs":ixs}));
+        } else {
+            r.act(mkw(1));
+            r.act(with_refresh(json!({"op":"solend_withdraw","acct":"A1","bank":"SB1","amount":0,"all":true})));
+            r.act(with_refresh(json!({"op":"solend_withdraw","acct":"A1","bank":"SB1","amount":0,"all":true})));
+        }
+    }
+    eprintln!("solend driver: {} scenarios, {} borrow boundaries, {} withdraw boundaries, {} events", n, nb, nw, r.events);
     r.finish();
 }
 
